@@ -3,7 +3,8 @@
      S, T       the structures with their cells
      optics     the table of optics on S: plain leaf lenses, every Join chain (both nestings), BiMap / Getter / Setter
                 wrappers with their conversion, ShapeN for N = 2..9 - each with the cells it focuses
-     isos, isosM, lists   type-compatible isos S<->T and S<->map, and the lists (0 = nil) for Morphism
+     isos, isosM, lists   type-compatible isos S<->T (over plain and over BiMap / Getter / Setter lenses, and Morphisms
+                used as entries) and S<->map, and the lists (0 = nil) for Morphism
      scripts    short programs (<= 3 steps) with the state of S, T and the map expected after every step
    lib/fam_optics.py compiles the programs to Go; harness/opticsdrv executes them. *)
 EXTENDS OpticsComposeMC, Json
@@ -22,8 +23,9 @@ OpticTable(sh, cs, lens, wrapped) ==
       J(ch, nest) == O("join", nest, "", [i \in 1..Len(ch) |-> [cont |-> ch[i].cont, key |-> ch[i].key, ty |-> ch[i].ty]],
                        <<>>, <<ch[Len(ch)].ty>>, <<AbsFocus(Tree(ch, nest))>>, 0)
       joins == [i \in 1..(2 * Len(chains)) |-> IF i <= Len(chains) THEN J(chains[i], "left") ELSE J(chains[i - Len(chains)], "right")]
-      nw == MinOf(Len(lens), wrapped)
-      W(i, kind, conv) == O(kind, "", conv, NoLinks, <<lens[i].key>>, <<lens[i].ty>>, <<<<lens[i].cell, lens[i].cell>>>>, lens[i].nv)
+      wl == SelectSeq(lens, LAMBDA x : x.nv <= 3)      \* the view types of the harness have three values
+      nw == MinOf(Len(wl), wrapped)
+      W(i, kind, conv) == O(kind, "", conv, NoLinks, <<wl[i].key>>, <<wl[i].ty>>, <<<<wl[i].cell, wl[i].cell>>>>, wl[i].nv)
       wraps == [n \in 1..(nw * 6) |-> LET i == ((n - 1) \div 6) + 1  k == (n - 1) % 6 IN
                   W(i, CASE k \in {0, 1} -> "bimap" [] k \in {2, 3} -> "getter" [] OTHER -> "setter", IF k % 2 = 0 THEN "rot" ELSE "cast")]
       shapes == [n \in 1..(MinOf(Len(lens), 9) - 1) |->
@@ -72,12 +74,16 @@ Emit ==
         lensS |-> ls, lensT |-> lt,
         mapty |-> IF Len(ls) > 0 THEN ls[1].ty ELSE "",
         optics |-> ot,
-        isos |-> [n \in 1..Len(isos) |-> [si |-> isos[n].si, ti |-> isos[n].ti]],
+        isos |-> [n \in 1..Len(isos) |->
+                    [kind |-> isos[n].kind, si |-> isos[n].si, ti |-> isos[n].ti, sw |-> isos[n].sw, tw |-> isos[n].tw, x |-> isos[n].x,
+                     seqix |-> isos[n].seqix,
+                     leaves |-> LET lv == Leaves(<<isos[n]>>) IN
+                                [i \in 1..Len(lv) |-> [s |-> AbsFocus(lv[i].s)[1], t |-> AbsFocus(lv[i].t)[1], sw |-> lv[i].sw, tw |-> lv[i].tw]]]],
         isosM |-> [n \in 1..Len(im) |-> [si |-> im[n].si, key |-> im[n].key]],
         lists |-> lists, listsM |-> listsM,
         init |-> [S |-> sv, T |-> tv, M |-> EmptyMap],
         scripts |-> [n \in 1..Len(ot) |-> OpticScript(ot, n, csS, sv, tv, EmptyMap)]
                     \o (IF Len(ot) = 0 THEN <<>> ELSE
-                        [n \in 1..Len(Take(lists, 16)) |-> MorphScript(isos, lists[n], ot, csS, sv, tv, EmptyMap, FALSE)]
+                        [n \in 1..Len(Take(lists, 24)) |-> MorphScript(isos, lists[n], ot, csS, sv, tv, EmptyMap, FALSE)]
                         \o [n \in 1..Len(Take(listsM, 16)) |-> MorphScript(im, listsM[n], ot, csS, sv, tv, EmptyMap, TRUE)])]))
 ====
